@@ -284,6 +284,8 @@ def members_for(mask, related, near, far, salt):
 
 def check(run):
     run.prove(MODULE, THEOREMS)
+    run.source_tie(['SrcMulti'], 'GeoVerif.Props.C04Src',
+                   ['GV.C04Src.' + t for t in ('containsCoord_eq', 'containsSingle_eq', 'containsMulti_eq', 'intersectsSingle_eq', 'intersectsMulti_eq', 'src_containsCoord_iff', 'src_intersects_iff', 'src_contains_iff')])
     rng = run.rng
     T = {k: S.templates(k) for k in range(6)}
     nmax = 4
